@@ -47,3 +47,42 @@ package leanhelix
 //@     invariant [src] iter_src(sendersIterator) == protocol.BlockProofReader(blockProofBytes)
 //@     invariant [pos] iter_pos(sendersIterator) == len(committeeMembers) && iter_pos(sendersIterator) <= seq_len(protocol.BlockProofReader(blockProofBytes), "Nodes")
 //@     invariant [ids] forall k :: 0 <= k && k < len(committeeMembers) ==> committeeMembers[k] == seq_at(protocol.BlockProofReader(blockProofBytes), "Nodes", k).MemberId()
+
+// ======================= worker loop: rounds, commits, node sync (C13 C14) =======================
+// ghost lastRoundHeight / lastCommitHeight: the height last passed to the new-round / commit callback of the host
+
+// A-SPI: host callbacks do not re-enter the library and do not touch its state
+//@ dep field:leanhelix.WorkerLoop.onNewConsensusRoundCallback
+//@   params ctx newHeight prevBlock canBeFirstLeader
+//@   requires [O13.5.round-heights-strictly-increase] newHeight > lastRoundHeight
+//@   requires [O13.5.round-is-the-state-height] newHeight == caller.state.height
+//@   modifies ghost:lastRoundHeight
+//@   ensures lastRoundHeight == newHeight
+
+//@ dep field:leanhelix.WorkerLoop.onCommitCallback
+//@   params ctx block blockProof
+//@   requires [O13.6.commit-heights-strictly-increase] block != nil && block.Height() > lastCommitHeight
+//@   modifies ghost:lastCommitHeight
+//@   ensures lastCommitHeight == block.Height()
+
+// building the term for the new height: committee request (polling loop), message factory, TermInCommittee, filters.
+// Trusted here (its pieces are verified in their packages); it does not move the height.
+//@ dep leanhelixterm.NewLeanHelixTerm
+//@   params ctx log config st electionTrigger onCommit prevBlock prevBlockProofBytes canBeFirstLeader
+//@   modifies state.State.view, M:S_state_HeightView:Int
+//@   ensures result != nil
+
+//@ dep (*leanhelixterm.LeanHelixTerm).Dispose
+//@   params self
+//@   ensures true
+
+// the filter replays cached messages into the new term; a replayed message may commit the new height, which re-enters
+// onNewConsensusRound (nested round: height, callbacks and term move on)
+//@ func (*WorkerLoop).onNewConsensusRound
+//@   props C13 C14
+//@   requires lh.state != nil && lh.filter != nil && lh.filter.state == lh.state && lh.filter.futureCache != nil && lh.state.Contexts != nil
+//@   requires lastRoundHeight <= lh.state.height && ndelivered >= 0
+//@   inv [filter.cache] forall k int, i int :: has(lh.filter.futureCache, k) && 0 <= i && i < len(lh.filter.futureCache[k]) ==> lh.filter.futureCache[k][i].BlockHeight() == k && lh.filter.futureCache[k][i].InstanceId() == lh.filter.instanceId && lh.filter.futureCache[k][i].SenderMemberId() != lh.filter.myMemberId
+//@   modifies state.State.height, state.State.view, leanhelix.WorkerLoop.leanHelixTerm, M:S_state_HeightView:Int, ghost:lastRoundHeight, ghost:lastCommitHeight, rawmessagesfilter.RawMessageFilter.consensusMessagesHandler, rawmessagesfilter.RawMessageFilter.latestFutureBlockHeight, M:Int:Slice_Iface, ghost:ndelivered, ghost:delivered
+//@   ensures [O13.state-moves-forward] lh.state.height >= old(lh.state.height)
+//@   ensures [O13.5.rounds-stay-below-state] lastRoundHeight <= lh.state.height && lastRoundHeight >= old(lastRoundHeight)
